@@ -28,7 +28,9 @@ def edge_shapes(tier):
             later = rep % 2 == 1
             hub = A.svar(c("m"), "hub") if later else v("a")
             sink = (lambda n: A.svar(c("m"), n)) if later else v
-            st = [A.node(hub)] + [A.node(sink(n)) for n in create]
+            # (every node carries its name: otherwise the sinks could be renumbered at will and an attribute on the wrong edge
+            # would go unnoticed)
+            st = [A.node(hub)] + [A.node(sink(n)) for n in create] + [A.attrn(sink(n), A.attr("id", A.string(n))) for n in create]
             # creation order of the nodes differs from the order in which the edges are added
             r.shuffle(create)
             st += [A.edge(hub, sink(n)) for n in create]
@@ -47,7 +49,7 @@ def edge_shapes(tier):
     # repeated after the edge list has changed)
     for rep in range(3 if tier == "quick" else 10):
         names = ["o%d" % j for j in range(4)]
-        st = [A.node(v(n)) for n in names] + [A.node(v("hub"))]
+        st = [A.node(v(n)) for n in names] + [A.node(v("hub"))] + [A.attrn(v(n), A.attr("id", A.string(n))) for n in names]
         order = names[:]
         r.shuffle(order)
         for j, n in enumerate(order):
